@@ -89,11 +89,14 @@ func (d *updogDriver) openFile(file string, optValues url.Values) (driver.Conn, 
 		opts = append(opts, updog.WithCache(lruCache))
 	}
 
-	d.fileConnMtx.RLock()
-	conn, ok := d.fileConnCache[key]
-	d.fileConnMtx.RUnlock()
+	// Looking up the cached connection, opening the index and registering
+	// the new connection have to be one critical section: database/sql opens
+	// connections concurrently, and a second OpenIndex on the same file would
+	// otherwise race with (and block on) the first one.
+	d.fileConnMtx.Lock()
+	defer d.fileConnMtx.Unlock()
 
-	if ok {
+	if conn, ok := d.fileConnCache[key]; ok {
 		conn.refs.Add(1)
 		return conn, nil
 	}
@@ -103,13 +106,13 @@ func (d *updogDriver) openFile(file string, optValues url.Values) (driver.Conn, 
 		return nil, fmt.Errorf("couldn't open index file %q: %v", file, err)
 	}
 
-	conn = &fileConn{
-		idx: idx,
+	conn := &fileConn{
+		idx:    idx,
+		driver: d,
+		key:    key,
 	}
 
-	d.fileConnMtx.Lock()
 	d.fileConnCache[key] = conn
-	d.fileConnMtx.Unlock()
 
 	conn.refs.Add(1)
 
@@ -127,6 +130,9 @@ func (d *updogDriver) openConn(host string, port string) (driver.Conn, error) {
 
 type fileConn struct {
 	idx *updog.Index
+
+	driver *updogDriver
+	key    fileCacheKey
 
 	refs atomic.Int32
 }
@@ -148,9 +154,23 @@ func (c *fileConn) prepare(query string) (*fileStmt, error) {
 }
 
 func (c *fileConn) Close() error {
+	c.driver.fileConnMtx.Lock()
+	defer c.driver.fileConnMtx.Unlock()
+
 	if c.refs.Add(-1) <= 0 {
+		// the connection must not be handed out again once its index is
+		// closed, so it leaves the cache before that happens.
+		if c.driver.fileConnCache[c.key] == c {
+			delete(c.driver.fileConnCache, c.key)
+		}
+
 		idx := c.idx
 		c.idx = nil
+
+		if idx == nil {
+			return nil
+		}
+
 		return idx.Close()
 	}
 
